@@ -67,6 +67,11 @@ func (Seed) Shift(buf []byte) (slip10.Key, error) {
 	return Seed(seed), nil
 }
 
+// HardenedOnly implements slip10.HardenedOnlyKey; Ed25519 only supports hardened derivation.
+func (Seed) HardenedOnly() error {
+	return ErrNotHardened
+}
+
 // Ed25519Key generates the corresponding public/private key pair.
 func (s Seed) Ed25519Key() (ed25519.PublicKey, ed25519.PrivateKey) {
 	privateKey := ed25519.NewKeyFromSeed(s.Bytes())
@@ -91,6 +96,11 @@ func (PublicKey) IsPrivate() bool {
 // Public returns a reference to itself.
 func (p PublicKey) Public() slip10.Key {
 	return p
+}
+
+// HardenedOnly implements slip10.HardenedOnlyKey; Ed25519 only supports hardened derivation.
+func (PublicKey) HardenedOnly() error {
+	return ErrNotHardened
 }
 
 // Shift implements the Shift method of slip10.Key.
